@@ -280,3 +280,57 @@ def check_enlarged(rec, key, obs, e, what):
     rec.check(ok_dir, f'{what}: cell vectors of non-periodic directions keep their direction', key + ':vects-nonperiodic', **detail)
     rec.check(ok_lo and ok_hi, f'{what}: a non-periodic direction is enlarged just enough to hold every atom (unchanged when all are inside)',
               key + ':enlarge', **detail)
+
+
+# ------------------------------------------------------------------------------------------ call histories
+def loosen(e, k):
+    """The expectation of a file that went through k write/read generations (every bound k times as wide)."""
+    e.tol_vects *= k
+    e.tol_origin *= k
+    e.tol_pos *= k
+    e.props = {n: (a, t * k, c) for n, (a, t, c) in e.props.items()}
+    return e
+
+
+def _same(a, b):
+    a, b = np.asarray(a), np.asarray(b)
+    if a.shape != b.shape or a.dtype != b.dtype:
+        return False
+    if a.dtype.kind == 'f':
+        return bool(np.array_equal(a.view(np.uint64 if a.dtype.itemsize == 8 else np.uint32),
+                                   b.view(np.uint64 if b.dtype.itemsize == 8 else np.uint32)))
+    return bool(np.array_equal(a, b))
+
+
+def differences(obs1, obs2):
+    """Names of the parts in which two observations (dicts made by the property module) differ in any bit."""
+    out = []
+    if obs1['natoms'] != obs2['natoms']:
+        out.append('natoms')
+    for k in ('vects', 'origin'):
+        if not _same(obs1[k], obs2[k]):
+            out.append(k)
+    if tuple(obs1['pbc']) != tuple(obs2['pbc']):
+        out.append('pbc')
+    if tuple(obs1['symbols']) != tuple(obs2['symbols']):
+        out.append('symbols')
+    if set(obs1['props']) != set(obs2['props']):
+        out.append('property-names')
+    for k in obs1['props']:
+        if k in obs2['props'] and not _same(obs1['props'][k], obs2['props'][k]):
+            out.append('prop:' + k)
+    return out
+
+
+def plain_equal(a, b):
+    """Deep equality of nested lists / tuples / dicts / scalars / arrays *including the container types* (used to tell
+    whether a call changed an argument it was handed)."""
+    if type(a) is not type(b):
+        return False
+    if isinstance(a, dict):
+        return list(a.keys()) == list(b.keys()) and all(plain_equal(a[k], b[k]) for k in a)
+    if isinstance(a, (list, tuple)):
+        return len(a) == len(b) and all(plain_equal(x, y) for x, y in zip(a, b))
+    if isinstance(a, np.ndarray):
+        return _same(a, b)
+    return a == b
